@@ -830,6 +830,9 @@ func (c *fctx) mutatedReceiver(call *ast.CallExpr) types.Object {
 	if cu == nil || len(cu.mutated) == 0 {
 		return nil
 	}
+	if len(cu.mutated) != 1 || cu.mutated[0] != f.Type().(*types.Signature).Recv() {
+		c.fail(call.Pos(), "call of %s, which writes through a pointer parameter other than its receiver", cu.key)
+	}
 	return c.rootVar(sel.X)
 }
 
@@ -1198,7 +1201,30 @@ func (c *fctx) assign(s *ast.AssignStmt) string {
 		if len(s.Lhs) == 1 {
 			return c.store(s.Lhs[0], c.exprAs(s.Rhs[0], c.lhsType(s.Lhs[0], s.Rhs[0])))
 		}
-		// parallel assignment: all right-hand sides first
+		// parallel assignment: all right-hand sides first.  Go also evaluates the index and
+		// pointer operands of the targets before assigning; targets whose operands mention a
+		// variable assigned by the same statement are rejected
+		assignedHere := map[types.Object]bool{}
+		for _, l := range s.Lhs {
+			if id, ok := unparen(l).(*ast.Ident); ok {
+				if o := c.info.Uses[id]; o != nil {
+					assignedHere[o] = true
+				} else if o := c.info.Defs[id]; o != nil {
+					assignedHere[o] = true
+				}
+			}
+		}
+		for _, l := range s.Lhs {
+			if _, ok := unparen(l).(*ast.Ident); ok {
+				continue
+			}
+			ast.Inspect(l, func(n ast.Node) bool {
+				if id, ok := n.(*ast.Ident); ok && assignedHere[c.info.Uses[id]] {
+					c.fail(id.Pos(), "parallel assignment whose target %s mentions the variable %s assigned by the same statement", exprString(l), id.Name)
+				}
+				return true
+			})
+		}
 		out := ""
 		tmps := make([]string, len(s.Lhs))
 		for i := range s.Lhs {
@@ -1502,6 +1528,15 @@ func (c *fctx) rangeStmt(s *ast.RangeStmt, next func() string) string {
 	}
 	if s.Tok == token.ASSIGN {
 		c.fail(s.Pos(), "range with = (assignment to existing variables)")
+	}
+	// Go reads the elements during the iteration: a body that writes the ranged slice would see
+	// its own writes, the fold over the pre-loop list would not
+	for _, k := range c.assigned(s.Body) {
+		for _, rk := range c.keysOf(s.X) {
+			if k == rk {
+				c.fail(s.X.Pos(), "range over a slice that the loop body modifies")
+			}
+		}
 	}
 	xs := c.expr(s.X)
 	keyUsed := s.Key != nil && !isBlank(s.Key)
